@@ -198,6 +198,29 @@ def r1_r2_r3(ctx, facts):
         r1.note("%s: %d decision sites, %d retry sites" % (who, len(sites), n_retry))
 
 
+def failed_pick(r, facts):
+    """(d) round 9: the fiber makes progress between two picks of a connection: either an attempt was sent or the plan
+    advanced. A pick that failed (pool broken / still connecting) must move on to the next target - asking the same
+    pool again, with no await in between, spins forever and no timeout around the fiber can fire. Shared with C10
+    (`no caller waits forever; the session keeps working through the remaining connections`)."""
+    b = facts.one(r"run_request_speculative_fiber::\{closure#0\}$")
+    sends = [c for bb, c in b.calls() if c.decl == "core::ops::function::Fn::call" and "res" not in c.callee and bb in b.live_blocks]
+    if len(sends) != 1:
+        raise AnchorLost("expected exactly one generic Fn::call (run_request_once) in the fiber, found %d" % len(sends))
+    nexts = b.calls_to("iter::traits::iterator::Iterator::next")
+    nexts = [c for c in nexts if c.span.macro and "ForLoop" in c.span.macro] or nexts
+    if not nexts:
+        raise AnchorLost("plan iterator next() not found")
+    picks = [c for bb, c in b.calls() if bb in b.live_blocks and (c.name or c.decl or "").split("::")[-1] == "get_connection"]
+    if len(picks) != 1:
+        raise AnchorLost("expected exactly one get_connection call in the fiber, found %d" % len(picks))
+    pk = picks[0].bb
+    reach = b.reachable_after(pk, removed_nodes=[c.bb for c in nexts] + [sends[0].bb])
+    r.instance("failed-pick-advances-plan", pk not in reach,
+               "get_connection can be reached again from itself without sending an attempt and without plan.next(): "
+               "a target whose pool has no connection is asked again and again (busy loop, the caller never completes)", picks[0].span)
+
+
 def r4(ctx, facts):
     r = ctx.rule("R4", "loop re-sends only via decide_should_retry + Retry* edge; next target via plan.next()", floor=5)
     b = facts.one(r"run_request_speculative_fiber::\{closure#0\}$")
@@ -256,6 +279,7 @@ def r4(ctx, facts):
     tg = edges.get("RetrySameTarget")
     reach = b.reachable_from(tg, removed_nodes=nb) if tg is not None else set()
     r.instance("same-target-keeps-target", send in reach, "RetrySameTarget re-sends without advancing the plan", span)
+    failed_pick(r, facts)
     # both retry arms count the retry
     for name in ("RetrySameTarget", "RetryNextTarget"):
         tg = edges.get(name)
@@ -279,6 +303,21 @@ def r5(ctx, facts):
                 ok = e[0] == "val" and e[1][1][-1:] == ("is_idempotent",) and b.local_ty(e[1][0]).endswith("RequestExecutionParams<'_>") or \
                     (e[0] == "val" and e[1][1][-1:] == ("is_idempotent",))
                 r.instance("RequestInfo.is_idempotent", ok, "operand is " + df.fmt_expr(e), b.stmt_span(st))
+                # round 9: the consistency shown to the policy is the one the attempt was SENT with (the fiber's own
+                # running value), not something read back from the failure: the default policy's "never at a serial
+                # consistency" test and the downgrading policy's arithmetic are about the request
+                if "consistency" in fields:
+                    from ..util import field_slice
+                    cop = ops[fields.index("consistency")]
+                    seen, calls, _ = field_slice(b, cop, stop_at=("decide_should_retry",))
+                    from_err = sorted({b.local_ty(l) for l, _ in seen
+                                       if any(x in b.local_ty(l) for x in ("RequestAttemptError", "DbError"))})
+                    via = sorted({(c.name or c.decl or "?").split("::")[-1] for c in calls
+                                  if any(a[0] in ("c", "m") and any(x in b.local_ty(a[1][0]) for x in ("RequestAttemptError", "DbError"))
+                                         for a in c.args)})
+                    r.instance("RequestInfo.consistency", not from_err and not via,
+                               "the consistency handed to decide_should_retry must be the one the attempt was sent with; here it is "
+                               "computed from the failure (%s)" % ", ".join(via + from_err), b.stmt_span(st))
                 n += 1
     if n == 0:
         raise AnchorLost("no RequestInfo aggregate in the fiber")
